@@ -191,7 +191,8 @@ func TestAccounting(t *testing.T) {
 			chain.AddStatSlot(rec)
 			ft := float64(rapid.IntRange(0, 4).Draw(t, "flowT"))
 			in := uint32(rapid.IntRange(1, 2).Draw(t, "isoN"))
-			if _, err := flow.LoadRules([]*flow.Rule{{Resource: "a", Threshold: ft, TokenCalculateStrategy: flow.Direct, ControlBehavior: flow.Reject}}); err != nil {
+			if _, err := flow.LoadRules([]*flow.Rule{{Resource: "a", Threshold: ft, TokenCalculateStrategy: flow.Direct, ControlBehavior: flow.Reject},
+				{Resource: "c", Threshold: float64(rapid.IntRange(1, 4).Draw(t, "paceT")), ControlBehavior: flow.Throttling, MaxQueueingTimeMs: 0}}); err != nil {
 				t.Fatalf("flow load: %v", err)
 			}
 			if _, err := isolation.LoadRules([]*isolation.Rule{{Resource: "b", MetricType: isolation.Concurrency, Threshold: in}}); err != nil {
